@@ -3,6 +3,7 @@
 import glob, json, os
 V = os.path.dirname(os.path.dirname(os.path.abspath(__file__)))
 rows = []
+hist = json.load(open(os.path.join(V, "lib", "seeded_history.json"))) if os.path.exists(os.path.join(V, "lib", "seeded_history.json")) else {}
 for d in sorted(glob.glob(os.path.join(V, "seeded", "*"))):
     mf = os.path.join(d, "meta.json")
     if not os.path.exists(mf):
@@ -20,8 +21,8 @@ for d in sorted(glob.glob(os.path.join(V, "seeded", "*"))):
             pass
     caught = ", ".join("%s%s" % (c, " (no-failing-input-found)" if v.get("no_failing_input_found") else "") for c, v in sorted(m["checks"].items()) if v["caught"]) or "—"
     missed = ", ".join(c for c, v in sorted(m["checks"].items()) if not v["caught"]) or "—"
-    rows.append("| `seeded/%s` | %s | %s | %s | %s |" % (os.path.basename(d), m["breaks_property"], what[:220].replace("|", "/"), caught, missed))
-out = ["| change | breaks | what it does | caught by (quick tier) | run but silent |", "|---|---|---|---|---|"] + rows
+    rows.append("| `seeded/%s` | %s | %s | %s | %s | %s |" % (os.path.basename(d), m["breaks_property"], what[:220].replace("|", "/"), caught, missed, hist.get(os.path.basename(d), "caught at the first evaluation")))
+out = ["| change | breaks | what it does | caught by (quick tier) | run but silent | history |", "|---|---|---|---|---|---|"] + rows
 out += ["", "`run but silent` lists checks of OTHER properties that were also run against the change and, correctly or not, did not",
         "react; a change is counted as caught when the check of the property it was written against reports a violation.",
         "Each `meta.json` records the confirmation (patch applies, builds, suite passes, demonstration fails with / passes without",
